@@ -141,7 +141,9 @@ TraceAccepted == TLCGet("stats").distinct = Len(Trace) + Cardinality(GroupStarts
 -----------------------------------------------------------------------------
 Ended  == phase = "ended"
 Sum    == [verdict |-> verdict, reds |-> reds, val |-> val, nfetch |-> nfetch, variant |-> variant]
-SameRun(a, b) == a.verdict = b.verdict /\ a.reds = b.reds /\ a.val = b.val /\ a.nfetch = b.nfetch
+\* (a run cut off as diverging is compared by its verdict only: where exactly the driver gave up is not behaviour)
+SameRun(a, b) == /\ a.verdict = b.verdict
+                 /\ a.verdict # "diverge" => (a.reds = b.reds /\ a.val = b.val /\ a.nfetch = b.nfetch)
 ERef   == eref    \* membership / first-bad reference of the current input, computed once per group (at the first reset)
 
 C01_Run == (Ended /\ verdict = "accept") =>
